@@ -21,6 +21,7 @@ Record case := mkCase {
   c_cap : nat;
   c_f7 : bool;
   c_f27 : bool;
+  c_f28 : bool;      (* fixes/F28_query_nil_deref.diff: queries no longer dereference a nil main-chain block *)
   c_expected : list (list N)
 }.
 
@@ -29,24 +30,28 @@ Definition bN (b : bool) : N := if b then 1 else 0.
 Definition res_code (r : result) : N :=
   match r with ROk => 0 | RKnown => 1 | RCached => 2 | ROrphan => 3 | RErr => 4 end.
 
-Definition receipts_code (d : store) (id : bid) : N :=
+Definition receipts_code (f28 : bool) (d : store) (id : bid) : N :=
   match get_block d id with
   | None => 0
   | Some b =>
       match get_block_by_no d (no b) with
-      | None => 3                                       (* nil dereference in getReceipts *)
+      | None => if f28 then 1 else 3                   (* nil dereference in getReceipts before F28 *)
       | Some m => if hash_field m =? hash_field b
                   then (if has_receipts d (hash_field b) (no b) then 2 else 0)
                   else 1
       end
   end.
 
-Definition tx_obs (d : store) (t : txid) : list N :=
+Definition tx_obs (f28 : bool) (d : store) (t : txid) : list N :=
   (match get_tx d t with
    | TxAbsent => [0; 0; 0]
    | TxSide id i => [1; id; N.of_nat i]
    | TxMain id i => [2; id; N.of_nat i]
-   | TxPanic => [3; 0; 0]
+   | TxPanic => if f28 then match get_tx_raw d t with
+                            | Some (b, i) => [1; hash_field b; N.of_nat i]
+                            | None => [0; 0; 0]
+                            end
+                else [3; 0; 0]
    end) ++
   (match d (KTx t) with
    | Some (VTxIdx id i) => [1; id; N.of_nat i]
@@ -60,8 +65,8 @@ Definition observe (c : case) (n : node) (r : result) : list N :=
   let d := dur n in
   [res_code r; hash_field (best n); no (best n); optN (get_latest d); sdb_root n]
   ++ map (fun k => optN (get_hash_by_no d k)) (seqN 0 (c_heights c))
-  ++ concat (map (tx_obs d) (c_txs c))
-  ++ concat (map (fun b => [bN (has_receipts d (hash_field b) (no b)); receipts_code d (hash_field b);
+  ++ concat (map (tx_obs (c_f28 c) d) (c_txs c))
+  ++ concat (map (fun b => [bN (has_receipts d (hash_field b) (no b)); receipts_code (c_f28 c) d (hash_field b);
                             bN (match get_block d (hash_field b) with Some _ => true | None => false end);
                             bN (mem (hash_field b) (bad n));
                             bN (existsb (fun o => hash_field o =? hash_field b) (orphans n))])
@@ -70,7 +75,9 @@ Definition observe (c : case) (n : node) (r : result) : list N :=
   ++ map (fun t => bN (existsb (fun e => match e with EvMemPoolPut t' => t =? t' | _ => false end) (evs n))) (c_txs c)
   ++ [N.of_nat (length (filter (fun e => match e with EvMemPoolPut _ => true | _ => false end) (evs n)))]
   ++ rev (concat (map (fun e => match e with EvMemPoolDel b => [b] | _ => [] end) (evs n)))
-  ++ [N.of_nat (length (filter (fun e => match e with EvSyncStart _ => true | _ => false end) (evs n)))].
+  ++ [N.of_nat (length (filter (fun e => match e with EvSyncStart _ => true | _ => false end) (evs n)))]
+  ++ [optN (match find_ancestor d (rev (map hash_field (c_blocks c)) ++ [hash_field (c_genesis c)]) with
+            | Some a => Some (hash_field a) | None => None end)].
 
 Definition clear_evs (n : node) : node :=
   mkNode (dur n) (best n) (sdb_root n) (orphans n) (bad n) (lib n) (jlog n) [].
